@@ -769,7 +769,7 @@ impl Driver {
                         v.push((if drain { 5 } else { 3 }, json!({"a":"payreturn","sel":{"call":id},"outcome":"failed"})));
                     }
                     let w = if drain && (done || !live) { 0 } else { 2 };
-                    for o in ["pending", "failed_warn", "error", "pending_nopre", "transport", "nocode"] {
+                    for o in ["pending", "failed_warn", "error", "pending_nopre", "transport", "nocode", "error_neg"] {
                         if w > 0 {
                             v.push((w, json!({"a":"payreturn","sel":{"call":id},"outcome":o})));
                         }
